@@ -132,6 +132,8 @@ def focus_optimizers(focus):
         return [stem], {}
     if base == 'tree.py' or base == 'node.py':
         return ['GP'], {}
+    if base == 'agent.py':
+        return [o for o in AGENT_MODEL_OPTS if o in OPTIMIZERS], {}
     return list(OPTIMIZERS), {}
 
 
@@ -215,6 +217,12 @@ def shrink_candidates(cfg):
     return out
 
 
+# optimizers that only COMPARE fitnesses (no arithmetic on them): an objective with infinite values cannot produce NaN by itself there.
+# Not the swarm family: a value >= FLOAT_MAX never replaces the initial personal best (the sentinel corner, known finding n), nor C02
+# (same corner for the best agent): on the unchanged tree this hunt is silent.
+AGENT_MODEL_OPTS = ('GP', 'HC', 'SCA', 'HS', 'CS', 'FPA')
+
+
 def hunts(quick, focus, timeout):
     """Targeted sub-matrices for behaviour that a uniform sample rarely reaches: ABC's onlooker loop on objectives
     that change sign (a few percent of ordinary seeds never terminate with 2-3 food sources), RPSO in boxes wider
@@ -222,6 +230,20 @@ def hunts(quick, focus, timeout):
     opts, _ = focus_optimizers(focus)
     out = []
     rnd = hlib.rng('hunt')
+    if focus and os.path.basename(str(focus).split(':')[0]) == 'agent.py':
+        # the data model of Agent (what the setters of fit / position store) is in doubt: objectives with infinite values on half of the
+        # box, judged for the record-truthfulness properties only (C03 speaks about finite objectives)
+        for o in opts:
+            for i in range(6 if quick else 30):
+                s_ = WR[o]['spaces'][i % len(WR[o]['spaces'])]
+                c = {'objective': 'inf_region', 'ret': ['pyfloat', 'npscalar'][i % 2], 'box': ['sym10', 'asym'][i % 2], 'agents': [5, 'min', 12][i % 3],
+                     'n_variables': [2, 1, 3][i % 3], 'n_dimensions': [1, 2][i % 2], 'n_iterations': [5, 2, 12][i % 3], 'draws': 'seeded',
+                     'hp': 'default', 'store_best_only': False, 'hook': 'observe', 'functions': ['arith', 'all'][i % 2], 'depth': (1, 3),
+                     'n_terminals': 2}
+                cfg = make(o, s_, c, 9900 + i, timeout)
+                cfg['only_props'] = ['C04', 'C12', 'C20']
+                cfg['repro'] = False
+                out.append(cfg)
     if 'ABC' in opts:
         for i in range(32 if quick else 240):
             c = {'objective': ['signchg', 'linear'][i % 2], 'ret': ['pyfloat', 'npscalar'][(i // 2) % 2], 'box': 'sym10', 'agents': [2, 3][(i // 4) % 2],
